@@ -371,6 +371,25 @@ func TestVerifC13(t *testing.T) {
 					cs.violation("nearestmatch-of-known-value", "NearestMatch(%q) = %+v, want {%s 1.0}", v, nm, keys[pi])
 					return
 				}
+				// the classifier stays usable after the exact-match answer: the same
+				// MultipleMatch again (must return, and the same), a further value registered
+				// and found (a lock kept by the early return would block both forever)
+				if again := sFmtMatches(c.MultipleMatch(unknown)); again != sFmtMatches(ms) {
+					cs.violation("multiplematch-differs-after-nearestmatch", "MultipleMatch(%q) after NearestMatch of a known value = %s, before: %s", unknown, again, sFmtMatches(ms))
+					return
+				}
+				if idx%4 == 0 {
+					extra := "zzq" + fmt.Sprint(idx) + " yyq xxq wwq"
+					if err := c.AddValue("extra-key", extra); err != nil {
+						cs.violation("addvalue-after-nearestmatch", "AddValue after NearestMatch failed: %v", err)
+						return
+					}
+					if nm2 := c.NearestMatch(FlattenWhitespace(extra)); nm2 == nil || nm2.Confidence != 1.0 {
+						cs.violation("nearestmatch-of-known-value", "NearestMatch of the value just added = %+v", nm2)
+						return
+					}
+				}
+				e.count("calls_after_nearestmatch", 1)
 			}
 			cs.nontrivial(unknown, thr, nl)
 		})
